@@ -31,10 +31,17 @@ REG = dict(
         "(beta_cdf_strictly_increasing), so the Beta theorems hold for ld_equal_tailed without the continuity hypothesis "
         "(ld_equal_tailed_critical_value_coverage_is_beta, ld_equal_tailed_interpolated_critical_value_between_betas); lemmas in "
         "OpdaProofs/LdStat.lean",
-        "TRUSTED for the ld window: (i) for ld_highest_density only: the coverage functions have finite level sets in [0,1] (explicit "
-        "hypothesis of ld_critical_value_coverage_is_beta_of_finite_level_sets; implied by the V shape about the mode, "
-        "v_shaped_level_sets, which is not proved for the highest-density coverage function); (ii) np.quantile(ts, c) is the linear interpolation between the order statistics "
-        "number floor(c(N-1))+1 and the next one (1-based; numpy's documented default, not formalised); (iii) scipy.stats.beta.ppf for "
+        "PROVED (no longer trusted) for ld_highest_density, n >= 2: the coverage function hdcov(a,b)(x) = Beta(a,b)-mass of the level set "
+        "of the density through x (= of the smallest highest-density interval containing x; C15 hdcov_spec, "
+        "hd_coverage_is_mass_of_shortest_interval_left/right) is measurable, strictly decreasing on [0,m] and strictly increasing on "
+        "[m,1], m the mode (C15 hd_coverage_v_shaped; a = 1 / b = 1: mode at an end point, strictly monotone), so the functions "
+        "hdcov(i+1, n-i) have level sets of at most two points (ld_highest_density_coverage_functions_v_shaped), the statistic has a "
+        "continuous distribution function (ld_highest_density_cdf_continuous) and the Beta theorems hold without hypothesis "
+        "(ld_highest_density_critical_value_coverage_is_beta, ld_highest_density_interpolated_critical_value_between_betas); lemmas in "
+        "OpdaProofs/BetaHdV.lean. These are statements about the real functions; that the code's float bisection realises hdcov is "
+        "compared in C15 (the exact bracket of beta.hdcov provably contains hdcov), not proved",
+        "TRUSTED for the ld window: (i) np.quantile(ts, c) is the linear interpolation between the order statistics "
+        "number floor(c(N-1))+1 and the next one (1-based; numpy's documented default, not formalised); (ii) scipy.stats.beta.ppf for "
         "the two window quantiles (compared against the exact binomial polynomial in C15)",
         "level tables are read off the returned distributions through their public cdf (doubles taken as exact rationals); the "
         "hypotheses of the theorems are checked on every table before it is evaluated: levels in [0,1], non-decreasing, "
@@ -63,20 +70,22 @@ TEXT = dict(
           "interpolated between T_(k) and T_(k+1) (np.quantile) has its distribution function between those of Beta(k+1, N-k) and "
           "Beta(k, N+1-k) -- a bracket, not a Beta law; the statistic max_i c_i(U_(i)) has no atoms whenever the c_i have finite level sets in "
           "[0,1], so its distribution function is continuous -- unconditionally for ld_equal_tailed (Beta distribution functions "
-          "are strictly increasing on [0,1]), given finite level sets for ld_highest_density. Evaluated on every run with the proved evaluator on the code's own "
+          "are strictly increasing on [0,1]) and for ld_highest_density, n >= 2 (the highest-density coverage function is strictly "
+          "decreasing up to the mode and strictly increasing after it). Evaluated on every run with the proved evaluator on the code's own "
           "level tables: dkw >= c, ks = c +- 1e-12, ld inside the stated Beta interval, for n <= 40 (80 thorough), confidences incl. 0 "
           "and 1, finite and infinite bounds; Steck's determinant is evaluated alongside and must agree exactly.",
     note="For every continuous F the probability that a band with given level tables contains F everywhere is now a Lean theorem "
          "(rectangle probability, evaluated per table for n <= 80, + probability-integral transform; neither is cited any more); "
          "DKW-Massart is only needed for the universal dkw claim beyond the evaluated tables. The Beta law of a simulated order statistic "
          "(ld) is now a Lean theorem too, with the honest reading that the code's interpolated critical value has a coverage between two "
-         "Beta variables; the continuity of the statistic's distribution function is a theorem for ld_equal_tailed (no atoms: finite "
-         "level sets of the coverage functions) and follows for ld_highest_density from finite level sets, which are assumed there; "
+         "Beta variables; the continuity of the statistic's distribution function is a theorem for both ld families (no atoms: finite "
+         "level sets of the coverage functions: at most two points, for the equal-tailed family about the median and for the "
+         "highest-density family, n >= 2, about the mode) -- nothing about the level sets is assumed any more; "
          "numpy's interpolation rule is assumed. n beyond 80 is evaluated by the Durbin matrix oracle for dkw/ks only.",
     technique="Lean 4 proof of the reduction (order-statistic box) and of the exact evaluator (cell decomposition of the unit cube, "
               "product measure), of the probability integral transform (sub-level sets of a continuous CDF are half-lines; "
               "Measure.pi_map_pi; a monotone map commutes with order statistics), of the binomial law of the count below a level under a product measure "
               "(disjoint boxes indexed by the subset of coordinates below the level; Measure.pi_pi; grouping subsets by size) and its "
               "identification with the Beta distribution function of C15 (derivative of the binomial tail telescopes), of the absence of atoms of the ld statistic (a coordinate of the uniform "
-              "product measure avoids null sets; strict monotonicity of the Beta distribution function from its positive derivative) + exact rational evaluation of the boundary-crossing probability on the code's tables",
+              "product measure avoids null sets; strict monotonicity of the Beta distribution function from its positive derivative; the highest-density coverage function defined through sup/inf of the density's level set across the mode, V shape from strict unimodality of the density and strict monotonicity of the Beta distribution function, measurability from interval sublevel sets) + exact rational evaluation of the boundary-crossing probability on the code's tables",
 )
